@@ -46,7 +46,7 @@ func NewHTTPConnectTCPMuxer(listener net.Listener, passthrough bool, timeout tim
 	return ret, err
 }
 
-func (muxer *HTTPConnectTCPMuxer) readHTTPConnectRequest(rd io.Reader) (host, httpUser, httpPwd string, err error) {
+func (muxer *HTTPConnectTCPMuxer) readHTTPConnectRequest(rd io.Reader) (host, httpUser, httpPwd string, remain []byte, err error) {
 	bufioReader := bufio.NewReader(rd)
 
 	req, err := http.ReadRequest(bufioReader)
@@ -63,6 +63,10 @@ func (muxer *HTTPConnectTCPMuxer) readHTTPConnectRequest(rd io.Reader) (host, ht
 	proxyAuth := req.Header.Get("Proxy-Authorization")
 	if proxyAuth != "" {
 		httpUser, httpPwd, _ = httppkg.ParseBasicAuth(proxyAuth)
+	}
+	// Bytes the client sent right behind the CONNECT request have been read together with it.
+	if n := bufioReader.Buffered(); n > 0 {
+		remain, _ = bufioReader.Peek(n)
 	}
 	return
 }
@@ -106,7 +110,7 @@ func (muxer *HTTPConnectTCPMuxer) getHostFromHTTPConnect(c net.Conn) (net.Conn, 
 	reqInfoMap := make(map[string]string, 0)
 	sc, rd := libnet.NewSharedConn(c)
 
-	host, httpUser, httpPwd, err := muxer.readHTTPConnectRequest(rd)
+	host, httpUser, httpPwd, remain, err := muxer.readHTTPConnectRequest(rd)
 	if err != nil {
 		return nil, reqInfoMap, err
 	}
@@ -118,6 +122,13 @@ func (muxer *HTTPConnectTCPMuxer) getHostFromHTTPConnect(c net.Conn) (net.Conn, 
 
 	outConn := c
 	if muxer.passthrough {
+		outConn = sc
+	} else if len(remain) > 0 {
+		// The request itself is answered here and not forwarded, but payload that was already
+		// consumed from the connection while reading it belongs to the tunnel: replay it.
+		if err := sc.ResetBuf(remain); err != nil {
+			return nil, reqInfoMap, err
+		}
 		outConn = sc
 	}
 	return outConn, reqInfoMap, nil
